@@ -21,6 +21,11 @@ Theorem C15_accepted_observation :
       (forall tp, co_parent_end o = Some tp -> (t <= tp)%Z)
   end.
 Proof. exact call_check_sound. Qed.
+(* a calling act closed by a client action on its own process while the child still ran is closed exactly once
+   all the same: the child's late return (refused, the act is terminal) leaves it alone *)
+Theorem C15_forced_close_stays_single :
+  forall o, forced_check o = [] -> co_inputs_ok o = true /\ exists x, co_act_ends o = [x].
+Proof. exact forced_check_sound. Qed.
 Theorem C15_missing_model_fails_the_act : forall o, call_check o = [] -> co_missing o = true -> co_act_open o = false.
 Proof. exact call_check_missing. Qed.
 (* expected_end is the return mapping, except that a return the calling act cannot take (a declared
@@ -42,6 +47,7 @@ Example C15_example :
 Proof. vm_compute. auto. Qed.
 
 Print Assumptions C15_accepted_observation.
+Print Assumptions C15_forced_close_stays_single.
 Print Assumptions C15_missing_model_fails_the_act.
 Print Assumptions C15_return_mapping.
 Print Assumptions C15_expected_end.
